@@ -52,7 +52,7 @@ func Specs(o Oracle, quick bool) []*Spec {
 		} else {
 			add(gcSpec("plain-gc-rewrite", true, 6, 0))
 			add(&Spec{Name: "plain-skiplist-b1", Cfg: dbh.Config{Engine: "skiplist", Buckets: 1, VlogFileSize: tinyVlog, SyncWrites: true},
-				Mode: "plain", Client: plainOps(), Maint: allMaint, MaxClient: 4, MaxMaint: 4, Depth: 6, RecOpen: true, ShardAt: 3})
+				Mode: "plain", Client: plainOps(), Maint: allMaint, MaxClient: 4, MaxMaint: 3, Depth: 5, RecOpen: true, ShardAt: 3})
 			add(&Spec{Name: "plain-art-b2-rewrite", Cfg: dbh.Config{Engine: "art", Buckets: 2, VlogFileSize: tinyVlog, SyncWrites: true, ManifestRewrite: 1},
 				Mode: "plain", Client: plainOps(), Maint: append(macro, "reopen"), MaxClient: 3, MaxMaint: 3, Depth: 5, ShardAt: 3})
 			add(&Spec{Name: "txn-art-b2-rewrite", Cfg: dbh.Config{Engine: "art", Buckets: 2, VlogFileSize: tinyVlog, SyncWrites: true, ManifestRewrite: 1},
@@ -78,7 +78,7 @@ func Specs(o Oracle, quick bool) []*Spec {
 			add(gcSpec("plain-gc-rewrite-nosync", false, 6, 0))
 			for _, sync := range []bool{false, true} {
 				add(&Spec{Name: fmt.Sprintf("plain-skiplist-b1-sync=%v", sync), Cfg: dbh.Config{Engine: "skiplist", Buckets: 1, VlogFileSize: tinyVlog, SyncWrites: sync},
-					Mode: "plain", Client: plainOps(), Maint: allMaint, MaxClient: 4, MaxMaint: 4, Depth: 6, RecOpen: true, ShardAt: 3})
+					Mode: "plain", Client: plainOps(), Maint: allMaint, MaxClient: 4, MaxMaint: 3, Depth: 5, RecOpen: true, ShardAt: 3})
 				add(&Spec{Name: fmt.Sprintf("txn-art-b2-rewrite-sync=%v", sync), Cfg: dbh.Config{Engine: "art", Buckets: 2, VlogFileSize: tinyVlog, SyncWrites: sync, ManifestRewrite: 1},
 					Mode: "txn", Client: txnOps(), Maint: macro, MaxClient: 4, MaxMaint: 3, Depth: 5, ShardAt: 3})
 				add(&Spec{Name: fmt.Sprintf("txn-huge-walbuf-sync=%v", sync), Cfg: withSync(hugeTweak, sync), Mode: "txn", HugeSize: 150 << 10,
@@ -91,7 +91,7 @@ func Specs(o Oracle, quick bool) []*Spec {
 		}
 	case C11:
 		if quick {
-			add(&Spec{Name: "plain-skiplist-b1-nosync", Cfg: dbh.Config{Engine: "skiplist", Buckets: 1, VlogFileSize: tinyVlog},
+			add(&Spec{Name: "plain-skiplist-b1-sync", Cfg: dbh.Config{Engine: "skiplist", Buckets: 1, VlogFileSize: tinyVlog, SyncWrites: true},
 				Mode: "plain", Client: []string{"s:a", "b:a", "d:a"}, Maint: []string{"rf", "gc"}, MaxClient: 3, MaxMaint: 1, Depth: 3, PostDepth: 2, PostCrash: true, PostPut: true})
 			add(&Spec{Name: "txn-art-b2-sync", Cfg: dbh.Config{Engine: "art", Buckets: 2, VlogFileSize: tinyVlog, SyncWrites: true},
 				Mode: "txn", Client: []string{"t:x=b", "t:x=d", "t:x=s,y=b"}, Maint: []string{"rf"}, MaxClient: 2, MaxMaint: 1, Depth: 2, PostDepth: 2, PostCrash: true, PostPut: true})
